@@ -569,6 +569,19 @@ namespace internal
 				MOMO_ASSERT(!mPositionRemove);
 				mPositionRemove = mHashSet.Find(raw);
 				MOMO_ASSERT(!!mPositionRemove);
+				if (!!mPositionAdd && mPositionRemove == mPositionAdd)
+				{
+					// Find has returned the entry just added for the same raw
+					for (typename HashSet::ConstIterator iter = mHashSet.GetBegin(); !!iter; ++iter)
+					{
+						Position pos = iter;
+						if (*iter == raw && pos != mPositionAdd)
+						{
+							mPositionRemove = pos;
+							break;
+						}
+					}
+				}
 			}
 
 			void RejectRemove() noexcept
